@@ -273,7 +273,9 @@ def pAfterCre (u : Nat) (r : Rec) : PPc :=
   if r.del then .fin
   else match r.phase with
     | .unbind => .reconf u r.ver r.uid
-    | .bind => if r.uid == u then .fin else if r.fixed then .upd r.ver .detaching else .delRec
+    -- a record of another pod instance is taken apart, bound or not yet bound (the latter since fix 64cfd19: its
+    -- interfaces may have been attached for the previous instance)
+    | .bind | .initial => if r.uid == u then .fin else if r.fixed then .upd r.ver .detaching else .delRec
     | _ => .fin
 
 /-- `Delete` on a record with a finalizer: the deletion timestamp is set (once) -/
@@ -402,6 +404,9 @@ def stepP (s : St) : Ev → Option St
     | .idle => none
     | .creating _ made _ => if made.isEmpty then some { s with p := .idle } else none
     | .rollback rem => if rem.isEmpty then some { s with p := .idle } else none
+    -- a decided write is attempted: nothing that can fail lies between the decision and the call
+    | .upd _ _ => none
+    | .delRec => none
     | _ => some { s with p := .idle }
   | _ => none
 
